@@ -165,7 +165,7 @@ func (o *Obligation) buildQuery(withModel bool) string {
 			}
 		}
 		if len(names) > 0 {
-			fmt.Fprintf(&sb, "(get-value (%s))\n", strings.Join(names, " "))
+			fmt.Fprintf(&sb, "(echo \"inputs-begin\")\n(get-value (%s))\n(echo \"inputs-end\")\n", strings.Join(names, " "))
 		}
 		sb.WriteString("(get-model)\n")
 	}
